@@ -73,6 +73,7 @@ def check_escape(ctx, prog):
               'the encoder writes byte(s) %s raw inside a string: not valid JSON (an independent strict parser rejects the output)' % ['0x%02x' % b for b in strict_bad[:8]])
     for start_name, stack in (('STRING', ('ARRAY', 'ROOT')), ('QPROPERTY', ('OBJECT:0', 'ROOT'))):
         bad = []
+        unknown_fork = False
         for b in range(1, 256):
             seq = table[b]
             if seq is None:
@@ -91,19 +92,27 @@ def check_escape(ctx, prog):
                     pend = [(env, acc)]
                     while pend:
                         cur, acc0 = pend.pop()
-                        for e2, ctl in m.step(cur, c):
+                        succ = list(m.step(cur, c))
+                        died = []
+                        alive = 0
+                        for e2, ctl in succ:
                             ctx.evaluations += 1
                             acc2 = acc0 + [ev[1] for ev in e2.events if ev[0] == 'append']
                             if e2.viol:
-                                dead = 'unsafe stack operation'
+                                died.append('unsafe stack operation')
                                 continue
                             if ctl == 'return' or e2.vars['_state'] == S['ERR']:
-                                dead = 'the decoder enters the error state'
+                                died.append('the decoder enters the error state')
                                 continue
+                            alive += 1
                             if e2.pushback:
                                 pend.append((e2.copy(), acc2))
                                 continue
                             nxt.append((e2, acc2))
+                        if died and alive and len(succ) > 1:
+                            unknown_fork = True       # the interpreter forked on a value it cannot determine (table look-up by pointer ...)
+                        elif died:
+                            dead = died[0]
                 trace = nxt
             if dead or not trace:
                 bad.append((b, dead or 'no successor'))
@@ -120,14 +129,21 @@ def check_escape(ctx, prog):
                         break
                     continue
                 known = [a for a in acc if a is not automaton.U]
+                if len(known) != len(acc):
+                    unknown_fork = True
+                    continue
                 if acc != [cb] and [a & 255 for a in known] != [b] or len(acc) != 1:
                     bad.append((b, 'the decoder appends %s instead of the single byte 0x%02x' % ([('?' if a is automaton.U else '0x%02x' % (a & 255)) for a in acc], b)))
                     break
         role = 'new_string <-> decoder from %s' % start_name
-        if bad:
+        if bad and unknown_fork and all(x[1] in ('the decoder enters the error state', 'no successor') or 'appends' in x[1] or 'left in state' in x[1] for x in bad):
+            ctx.undecided('C05.escape', f['pq'], role, fwhere(f), 'the decoder transition for an escape letter depends on a value the interpreter cannot determine (e.g. a table look-up through memchr): %d byte value(s) not decided' % len(bad))
+        elif bad:
             ex = bad[0]
             ctx.violation('C05.escape', f['pq'], role, fwhere(f), 'for %d byte value(s) the text the encoder emits is not decoded back to that byte when read in the %s state, e.g. byte 0x%02x (%s): %s' % (
                 len(bad), 'string-value' if start_name == 'STRING' else 'quoted-key', ex[0], repr(chr(ex[0])) if 32 <= ex[0] < 127 else 'control/non-ASCII', ex[1]))
+        elif unknown_fork:
+            ctx.undecided('C05.escape', f['pq'], role, fwhere(f), 'the decoder transition depends on a value the interpreter cannot determine')
         else:
             ctx.ok('C05.escape', f['pq'], role, fwhere(f), 'all 255 byte values round-trip through the interpreted decoder transitions')
     # \\uXXXX decoding: 4 hex digits through strtoul base 16, then UTF-16 -> UTF-8
